@@ -1,6 +1,7 @@
 package props
 
 import (
+	"math"
 	"fmt"
 	"strings"
 
@@ -46,6 +47,8 @@ var c08Faults = []c08Fault{
 	{"split('abc', 'zz', `-1`)", "invalid-value", false}, {"split('', ',', `-1`)", "invalid-value", false}, {"split('abc', 'zz', `0.5`)", "invalid-value", false}, {"pad_left('abcdef', `2`, 'xy')", "invalid-value", false},
 	{"pad_right('abcdef', `-1`)", "invalid-value", false}, {"pad_left('abcdef', `2`, '')", "invalid-value", false}, {"find_first('abc', 'zz', `0.5`)", "invalid-value", false}, {"find_last('', 'zz', `0`, `0.5`)", "invalid-value", false},
 	{"find_first('abc', '', `0.5`)", "invalid-value", false}, {"join(',', `[]`) && join(`1`, `[]`)", "invalid-type", false}, {"contains('abc', `1`)", "invalid-type", false}, {"starts_with('', `1`)", "invalid-type", false},
+	{"fneg / fzero", "not-a-number", false}, {"fpos / fzero", "not-a-number", false}, {"fneg // fzero", "not-a-number", false}, {"fneg % fzero", "not-a-number", false}, {"fpos % fzero", "not-a-number", false}, {"f32neg / f32zero", "not-a-number", false},
+	{"fneg / `0`", "not-a-number", false}, {"`-1` / fzero", "not-a-number", false}, {"-fpos / fzero", "not-a-number", false}, {"fneg / fnegzero", "not-a-number", false}, {"fzero / fzero", "not-a-number", false}, {"f32neg // fzero", "not-a-number", false},
 	{"sort_by(`[]`, &abs('x'))", "", false}, {"map(&abs('x'), `[]`)", "", false}, {"max_by(`[{\"a\":1}]`, &abs('x'))", "invalid-type", false}, {"sum(`[]`) + abs('x')", "invalid-type", false},
 }
 
@@ -83,6 +86,8 @@ func c08Docs() []doc {
 		// every object document also carries an unserialisable value under "chan"
 		if m, ok := d.Raw.(map[string]any); ok {
 			m["chan"] = make(chan int)
+			// numbers carried by Go floats: a division by zero on the float path is a not-a-number fault like any other
+			m["fneg"], m["fzero"], m["fpos"], m["f32neg"], m["f32zero"], m["fnegzero"] = float64(-1), float64(0), float64(2.5), float32(-1), float32(0), math.Copysign(0, -1)
 			d.Norm = core.Norm(d.Raw)
 		}
 		out = append(out, d)
@@ -99,7 +104,7 @@ func init() {
 			"is run through Compile, Compile+Search and one-shot Search on every document (including documents that make the faulty code unreachable): a failure returns a nil result and an error matching exactly one exported category, the one the reference names; " +
 			"static faults fail Compile and fail Search identically on every document; a compiled Expression never reports syntax, arity or unknown-function over the whole valid space of C01/C02/C19; " +
 			"non-trivial = a call that fails; distinct_nontrivial counts distinct (carrier, category) outcomes",
-		Phases: []core.Phase{{Name: "faults", Build: "instr", Fn: c08RunFaults}, {Name: "valid-space", Build: "instr", Fn: c08RunValid}},
+		Phases: []core.Phase{{Name: "faults", Build: "instr", Fn: c08RunFaults}, {Name: "valid-space", Build: "instr", Fn: c08RunValid}, {Name: "after-a-failure", Build: "instr", Fn: c08RunAfter}},
 		Judge:  c08Judge,
 		Assumptions: []string{
 			"for an expression-reference written where a value is expected both invalid-type (specification) and syntax (the implementation rejects the text) are accepted",
@@ -327,9 +332,85 @@ func c08RunValid(r *core.Run) {
 }
 
 func c08Judge(r *core.Run, phase string, pt map[string]any) *core.Violation {
+	if pbool(pt, "after") {
+		return c08AfterPoint(r, pstr(pt, "first"), pstr(pt, "expr"), pint(pt, "di"))
+	}
 	var accept []string
 	if a := pstr(pt, "accept"); a != "" {
 		accept = strings.Split(a, ",")
 	}
 	return c08Check(r, pstr(pt, "expr"), pstr(pt, "family"), accept, c08Docs())
+}
+
+// phase "after-a-failure": a call that fails half-way must leave nothing behind that a later call can see. Every fault
+// of the menu is put into constructs that have already stored something when the fault strikes (the second binding of a
+// let, the second member of a hash or list, a later element of a projection, a later argument); then every probe is
+// evaluated - among them lets that refer to names only the failed let bound, which must be undefined variables.
+var c08AfterCarriers = []string{"let $v = 'eu', $w = %s in [$v, $w]", "let $a = `1`, $b = %s, $c = `3` in $a", "let $v = a in let $w = %s in $v", "{p: 'x', q: %s}", "[a, %s]", "join(',', ['x', to_string(%s)])",
+	"arr[*].[@, %s]", "map(&[@, %s], arr)", "sort_by(arr, &%s)", "merge({k: 'v'}, {l: %s})", "arr[?%s]", "[arr[*].[@], %s]", "not_null(missing, %s)", "let $v = 'eu' in [let $w = %s in $w, $v]"}
+
+var c08AfterProbes = []string{"let $c = a in [$c, $v]", "let $c = a in $w", "let $p = `1` in [$p, $a]", "$v", "[$v]", "let $z = `0` in let $y = `1` in [$b, $c]", "let $q = `1` in $w", "{p: a}", "[a, b]", "join(',', ['x', 'y'])",
+	"arr[*].[@]", "map(&[@], arr)", "merge({k: 'v'}, {l: 'w'})", "sort_by(arr, &@)", "let $v = 'us' in [$v]", "let $w = a in let $x = b in [$w, $x]", "arr[?@]", "[arr[*].[@], a]", "not_null(missing, a)", "let $c = a in arr[*].[$v]", "map(&$w, arr)"}
+
+func c08RunAfter(r *core.Run) {
+	if bad := refSelfCheck(); bad != "" {
+		r.InternalError(bad)
+		return
+	}
+	r.Bound("after_a_failure_carriers", len(c08AfterCarriers))
+	r.Bound("after_a_failure_probes", len(c08AfterProbes))
+	n := 0
+	for _, f := range c08Faults {
+		for _, c := range c08AfterCarriers {
+			first := fmt.Sprintf(c, f.Expr)
+			n++
+			if !r.Mine(n) || r.Expired() {
+				continue
+			}
+			r.Add("states", 1)
+			for _, g := range c08AfterProbes {
+				for di := 0; di < 2; di++ {
+					r.Begin(map[string]any{"expr": g, "doc": "after " + first})
+					if v := c08AfterPoint(r, first, g, di); v != nil {
+						r.Violate(v)
+					}
+				}
+			}
+		}
+	}
+}
+
+func c08AfterPoint(r *core.Run, first, probe string, di int) *core.Violation {
+	docs := c08Docs()
+	d := docs[[]int{0, 7}[di%2]]
+	want := ref.Eval(probe, d.Norm)
+	if want.U != "" {
+		r.AbstainOn(want.U)
+		return nil
+	}
+	for route := 0; route < 2; route++ {
+		var o core.Obs
+		name := "Search"
+		if route == 0 {
+			core.Search(first, d.Raw)
+			o = core.Search(probe, d.Raw)
+		} else {
+			name = "Compile + Expression.Search"
+			if e, _ := core.Compile(first); e != nil {
+				core.ExprSearch(e, d.Raw)
+			}
+			e, co := core.Compile(probe)
+			o = co
+			if e != nil {
+				o = core.ExprSearch(e, d.Raw)
+			}
+		}
+		r.Eval(o)
+		r.Add("transitions", 2)
+		if k := ref.Diff(o, want); k != "" {
+			return &core.Violation{Sig: "C08/after-a-failure/" + k + "/" + fnOf(probe), Desc: fmt.Sprintf("%s(%q, %s) right after %s(%q) on the same document", name, probe, d.Text, name, first),
+				Point: map[string]any{"after": true, "first": first, "expr": probe, "di": di, "doc": "after " + first}, Expected: want.String(), Actual: o.Short()}
+		}
+	}
+	return nil
 }
